@@ -47,7 +47,7 @@ def main():
             demo = demos[0]
             pk = re.search(r"^package (\w+)", open(os.path.join(sd, demo)).read(), re.M).group(1)
             pkgdir = PKGDIR.get(pk.replace("_test", ""), ".")
-            cmd = [os.path.join(VERIF, "tools", "seedtest.py"), os.path.join(dst, "patch.diff"), prop, "--demo", os.path.join(dst, demo), pkgdir]
+            cmd = [sys.executable, os.path.join(VERIF, "tools", "seedtest.py"), os.path.join(dst, "patch.diff"), prop, "--demo", os.path.join(dst, demo), pkgdir]
             r = subprocess.run(cmd, capture_output=True, text=True)
             try:
                 out = json.loads(r.stdout)
